@@ -53,7 +53,12 @@ CFG = {
         "every pivot position of one tree; clone program: up to 4 handles, 25-75 steps with snapshots of all handles; concurrent: "
         "2-4 goroutines on disjoint key classes of one wrapper; targeted: every limit 0..len+1 of the four wrapper scans and every stop "
         "count of the ten entry points on trees of >= 3 levels, every present key stored again, Clone taken exactly when the root "
-        "is full, as a leaf and as an inner root, followed by a write on either side; clone programs whose trees (the first one "
+        "is full, as a leaf and as an inner root, followed by a write on either side; wrapper histories in which Update / "
+        "UpdateOrInsert get ONE value as both arguments (UpdateOrInsert(x, x), the upsert idiom) for a key that is absent, present "
+        "with another payload, or present with this very item (x fetched with Get), and an old argument that is the stored item "
+        "with a fresh new item of the same key, with scans and Gets in between - the step text names the payload each argument "
+        "carries; the model's Update(old, new) deletes key(old) and stores new iff the key was there (UpdateOrInsert: always), "
+        "whatever the identity of the arguments, so the Coq term carries the old key and the new item only; clone programs whose trees (the first one "
         "and further ones made during the program) are made with NewWithFreeList on one free list of 1-4 or 32 nodes, with "
         "Clear(true/false) on originals and clones, right after Clone and later, each followed by a burst of inserts on some "
         "handle that takes the recycled nodes and by snapshots of all handles - the model says Clear empties that tree only; "
